@@ -362,12 +362,18 @@ func (m *Machine) loadSymIdx(l *Loc, idx *sym.Term) Value {
 			}
 		}
 		if allTerms {
-			return m.ctx.MapLeaves(idx, func(k *sym.Term) *sym.Term { return l.Elems[k.Int()].(*sym.Term) })
+			return m.ctx.MapLeaves(idx, func(k *sym.Term) *sym.Term {
+				i := k.Int()
+				if i < 0 || i >= int64(len(l.Elems)) {
+					i = 0 // leaf excluded by the preceding bounds check
+				}
+				return l.Elems[i].(*sym.Term)
+			})
 		}
 	}
 	// restrict to feasible window when large
 	lo, hi := 0, n-1
-	if n > 64 {
+	if n > 1024 {
 		lo, hi = m.idxRange(idx, n)
 	}
 	get := func(i int) Value {
@@ -390,7 +396,7 @@ func (m *Machine) storeSymIdx(l *Loc, idx *sym.Term, v Value) {
 	}
 	n := l.arrayLen()
 	lo, hi := 0, n-1
-	if n > 64 {
+	if n > 1024 {
 		lo, hi = m.idxRange(idx, n)
 	}
 	for i := lo; i <= hi; i++ {
